@@ -1158,6 +1158,7 @@ theorem pay_startTop {s : St} (h : PayInv s) (t : Nat) (op : TopOp) : PayInv (st
   case gc => exact pre_nil_of_dl h1 (DL.push (DL.refl _) _) (fun w hw => by simp [qW, St.push, frameW, frameCmds])
   case poll => exact pre_nil_of_dl h1 (DL.push (DL.refl _) _) (fun w hw => by simp [qW, St.push, frameW, frameCmds])
   case frameEnd => exact pre_nil_of_dl h1 (DL.push (DL.refl _) _) (fun w hw => by simp [qW, St.push, frameW, frameCmds])
+  case clearTrackers => exact pre_nil_of_dl h1 ((DL.refl _).then_same rfl rfl rfl) (fun w hw => by simp [qW])
   case sigThreads a n => exact pre_nil_of_dl h1 (DL.push (DL.refl _) _) (fun w hw => by simp [qW, St.push, frameW, frameCmds])
   case sigPrepare e => exact pre_nil_of_dl h1 ((DL.refl _).then_same rfl rfl rfl) (fun w hw => by simp [qW, newArc])
   case sigClone a =>
